@@ -981,8 +981,8 @@ fn scale_cmd(a: &Args) -> i32 {
         Err(_) => die("cannot spawn thread"),
     };
     out(&format!(
-        "{{\"type\":\"scale\",\"shape\":\"{shape}\",\"n\":{},\"edges\":{},\"stack_kb\":{stack_kb},\"destroyed\":{},\"double\":{},\"trace_calls\":{},\"pops\":{},\"visits\":{},\"scanned\":{},\"build_us\":{},\"drop_us\":{}}}\n",
-        o.n, o.edges, o.destroyed, o.double, o.trace_calls, o.pops, o.visits, o.scanned, o.build_us, o.drop_us
+        "{{\"type\":\"scale\",\"shape\":\"{shape}\",\"n\":{},\"edges\":{},\"stack_kb\":{stack_kb},\"destroyed\":{},\"double\":{},\"trace_calls\":{},\"pops\":{},\"visits\":{},\"scanned\":{},\"build_us\":{},\"drop_us\":{},\"count_errors\":{}}}\n",
+        o.n, o.edges, o.destroyed, o.double, o.trace_calls, o.pops, o.visits, o.scanned, o.build_us, o.drop_us, o.count_errors
     ));
     0
 }
